@@ -384,6 +384,29 @@ def rule_ts_fut(ctx: Ctx) -> None:
                       f'({norm(par)[:80] if par is not None else ""}): the communicated value would be lost or another slot overwritten', c)
 
 
+def callback_worlds(p, f) -> dict:  # noqa: ANN001
+    """The completion callback of a communicator method evaluated in the four worlds (average, symmetric):
+    world -> (canonical value with the future's payload written VALUE, return node)."""
+    from kfv import symexec
+    from kfv.terms import Facts
+    inner = [h for h in p.funcs.values() if h.parent is f and h.kind == 'nested']
+    if len(inner) != 1:
+        raise AnalysisIncomplete(f'{f.short}: expected one nested callback')
+    h = inner[0]
+    prm = h.params[0] if h.params else 'future_'
+    out = {}
+    for avg in (True, False):
+        for sym in (True, False):
+            cb = symexec.SymCB(lambda c: None, None, None, None, Facts({}, None, {'average': avg, 'symmetric': sym}))
+            _fin, exits = symexec.run(h, cb, {})
+            rets = [(s_, r) for s_, r in exits if isinstance(r, ast.Return) and r.value is not None]
+            if len(rets) != 1:
+                raise AnalysisIncomplete(f'{h.short}: {len(rets)} return paths for average={avg}, symmetric={sym}')
+            got = cb.value(rets[0][0], rets[0][1].value).canon()
+            out[(avg, sym)] = (got.replace(f'{prm}.value()[0]', 'VALUE').replace(f'{prm}.value()', 'VALUE'), rets[0][1])
+    return out
+
+
 def rule_aff_avg(ctx: Ctx) -> None:
     p = ctx.prog
     p.family = None
